@@ -200,6 +200,20 @@ func (f *Fn) match(p ast.Expr, e ast.Expr, b Binds) bool {
 		if p.Type != nil && (y.Type == nil || !f.match(p.Type, y.Type, b)) {
 			return false
 		}
+		// positional elements: same length, element-wise
+		if len(p.Elts) > 0 {
+			if _, isKV := p.Elts[0].(*ast.KeyValueExpr); !isKV {
+				if len(p.Elts) != len(y.Elts) {
+					return false
+				}
+				for i := range p.Elts {
+					if !f.match(p.Elts[i], y.Elts[i], b) {
+						return false
+					}
+				}
+				return true
+			}
+		}
 		// every key: value of the pattern must be present in e
 		for _, pe := range p.Elts {
 			pkv, ok := pe.(*ast.KeyValueExpr)
